@@ -37,7 +37,7 @@ PRODUCERS = ["inline", "inline_angle", "image", "image_angle", "autolink", "ref_
 
 
 def floors(tier):
-    f = {"urls.token": 50000, "urls.html": 20000, "literal_twins_compared": 20000, "method_composition": 20000, "scheme_spellings_distinct": 500, "autolink.email": 2000, "long_destinations": 1000, "duplicate.cases": 1500}
+    f = {"urls.token": 50000, "urls.html": 20000, "literal_twins_compared": 20000, "method_composition": 20000, "scheme_spellings_distinct": 500, "autolink.email": 2000, "long_destinations": 1000, "duplicate.cases": 1500, "plain_relative_lookalikes": 1500}
     for p in PRODUCERS:
         f["emitted." + p] = 200
         f["rejected." + p] = 200 if not p.startswith("linkify") else 50
@@ -312,8 +312,12 @@ def run(ctx):
         if prod in ("inline", "image", "ref_link", "inline_angle") and rng.random() < 0.08:
             # long destinations (caches and fast paths are often keyed on size)
             sch = rng.choice(["data:text/html;base64,", "javascript:", "DATA:image/svg+xml,", "data:image/png;base64,", "http://a.b/"])
-            d = sch + "A" * rng.choice([1000, 1024, 1100, 4000])
+            d = sch + "A" * rng.choice([1000, 1024, 1100, 4000, 4096, 4200]) + rng.choice(["", "", "=", "==", "&#10;", "&NewLine;", "&#xA;", "&Tab;", "%0A", "\\"])
             ctx.count("long_destinations")
+        if prod in ("inline", "image", "ref_link", "ref_image") and rng.random() < 0.06:
+            # plain relative destinations with the letters that case-insensitive ASCII classes also match, and other look-alikes
+            d = rng.choice(["notes/273\u212a.html", "#\u017fection", "\u0131ndex.html", "a/\u0130.png", "../\u212b/x", "p\uff41ge.html", "\u00b5.txt", "x/\u2160.md", "./\u00aa-b_c"])
+            ctx.count("plain_relative_lookalikes")
         if prod == "autolink" and rng.random() < 0.3:
             # e-mail autolinks: the local part may hold characters that are not URL-safe
             d = rng.choice(["a{b@example.com", "100%@ex.com", "x|y@z.co", "q^r@s.tu", "a`b@c.de", "u}v@w.xy", "p%zz@q.rs", "ok@host.example", "A.B+c@d-e.fg", "a!#$&'*/=?b@c.d"])
